@@ -157,9 +157,7 @@ def reader_loops(ids, exact_names):
               imp("!g_usecols", "g_ns_num[2] == g_nc"), "g_ns_num[0] == g_nr && g_ns_num[1] == g_nc"]
     if exact_names:
         inv_cn.append(imp(G1, "j <= g_c1 ? g_regc_cnt == 0 : (g_regc_cnt == 1 && g_regc_form == 2 && g_regc_lit == 120 && g_regc_val == g_c1)"))
-        inv_cn.append("j == 0 ? g_ss_form == 0 : 1")
         inv_rn.append(imp(GR, "i <= g_r ? g_regr_cnt == 0 : (g_regr_cnt == 1 && g_regr_form == 2 && g_regr_lit == 67 && g_regr_val == g_r)"))
-        inv_rn.append("i == 0 ? g_ss_form == 0 : 1")
     else:
         inv_cn.append("0 <= g_regc_cnt && g_regc_cnt <= 1")
         inv_rn.append("0 <= g_regr_cnt && g_regr_cnt <= 1")
